@@ -1,4 +1,6 @@
 """C09 -- MPEG-TS packetisation (spec/TsPack.tla, driver ts)."""
+import gc
+import json
 import engine as E
 
 
@@ -9,55 +11,65 @@ def t3(v):
 from props import c06
 
 
-def run(ctx):
+def pack_part(ctx):
     E.build_harness(ctx)
     cfg = "MC_TsPack_q.cfg" if ctx.quick else "MC_TsPack_t.cfg"
     res = E.tlc(ctx, "MC_TsPack", cfg, timeout=1500, deadlock=False)
     E.require_design_ok(ctx, res, cfg)
-    acts = list(E.emitted(res, "@S@"))
-    ctx.log("%s: %d frames enumerated, reference packetiser satisfies FrameOK on all" % (cfg, len(acts)))
-    scen = []
-    for i, a in enumerate(acts):
-        f = a["frame"]
-        # the enumerated frame, then two follow-up frames on the same PID carrying the counter on
-        f2 = dict(f, key=False, pts=f["dts"], len=max(1, (f["len"] * 7) % 371))
-        f3 = dict(f, key=True, len=1 + (f["len"] % 3))
-        scen.append({"sc": i, "kind": "frames", "cc": a["cc"], "frames": [f, f2, f3]})
-    # big frames around packet boundaries (lengths add nothing new modulo 184 except the PES
-    # length field and buffer growth)
-    big = []
-    for base in ([1024, 65536 - 19, 65536] if ctx.quick else [1024, 8192, 65536 - 19, 65536, 204800]):
-        k = base // 184
-        for r in range(-2, 3):
-            for kk in (k, k + 1):
-                n = kk * 184 + r
-                for key in (False, True):
-                    for cts in (0, 3600):
-                        big.append({"len": n, "key": key, "pts": t3(900000 + cts), "dts": t3(900000),
-                                    "pid": 256, "sid": 224})
-    # every length around the 16-bit PES_packet_length limit (65535 - 3 - header data length)
-    for n in range(65500, 65560):
-        for cts in (0, 3600):
-            big.append({"len": n, "key": (n % 2 == 0), "pts": t3(900000 + cts), "dts": t3(900000), "pid": 256 + (n % 2),
-                        "sid": 224 if n % 2 == 0 else 192})
-    for f in big:
-        scen.append({"sc": len(scen), "kind": "frames", "cc": (f["len"] % 16), "frames": [f, dict(f, len=185)]})
-    for v in (7, 12, 0, 99):
-        for a in (10, 13, 0, 7):
-            scen.append({"sc": len(scen), "kind": "psi", "cc": 0, "v": v, "a": a, "frames": []})
+    # streamed: the thorough tier enumerates 1.5 million frames, which must not all sit in memory as python objects
     sp, tp = ctx.path("scen.ndjson"), ctx.path("trace.ndjson")
-    E.write_ndjson(sp, scen)
+    nscen, nframes, nenum = 0, 0, 0
+    first = last = None
+    with open(sp, "w") as out:
+        def put(sc):
+            nonlocal nscen, nframes, first, last
+            sc["sc"] = nscen
+            out.write(json.dumps(sc, separators=(",", ":")) + "\n")
+            nscen += 1
+            nframes += len(sc["frames"])
+            if first is None:
+                first = sc
+            last = sc
+        for a in E.emitted(res, "@S@"):
+            f = a["frame"]
+            nenum += 1
+            # the enumerated frame, then two follow-up frames on the same PID carrying the counter on
+            f2 = dict(f, key=False, pts=f["dts"], len=max(1, (f["len"] * 7) % 371))
+            f3 = dict(f, key=True, len=1 + (f["len"] % 3))
+            put({"kind": "frames", "cc": a["cc"], "frames": [f, f2, f3]})
+        ctx.log("%s: %d frames enumerated, reference packetiser satisfies FrameOK on all" % (cfg, nenum))
+        # big frames around packet boundaries (lengths add nothing new modulo 184 except the PES
+        # length field and buffer growth)
+        big = []
+        for base in ([1024, 65536 - 19, 65536] if ctx.quick else [1024, 8192, 65536 - 19, 65536, 204800]):
+            k = base // 184
+            for r in range(-2, 3):
+                for kk in (k, k + 1):
+                    n = kk * 184 + r
+                    for key in (False, True):
+                        for cts in (0, 3600):
+                            big.append({"len": n, "key": key, "pts": t3(900000 + cts), "dts": t3(900000),
+                                        "pid": 256, "sid": 224})
+        # every length around the 16-bit PES_packet_length limit (65535 - 3 - header data length)
+        for n in range(65500, 65560):
+            for cts in (0, 3600):
+                big.append({"len": n, "key": (n % 2 == 0), "pts": t3(900000 + cts), "dts": t3(900000), "pid": 256 + (n % 2),
+                            "sid": 224 if n % 2 == 0 else 192})
+        for f in big:
+            put({"kind": "frames", "cc": (f["len"] % 16), "frames": [f, dict(f, len=185)]})
+        for v in (7, 12, 0, 99):
+            for a in (10, 13, 0, 7):
+                put({"kind": "psi", "cc": 0, "v": v, "a": a, "frames": []})
     E.run_driver(ctx, "ts", sp, tp)
-    rows = E.read_ndjson(tp)
-    ctx.cov["traces_validated_against_impl"] = len(scen)
-    ctx.cov["evaluations"] = sum(len(s["frames"]) for s in scen) + 32
-    ctx.cov["distinct_nontrivial"] = len(scen)
+    ctx.cov["traces_validated_against_impl"] = nscen
+    ctx.cov["evaluations"] = nframes + 32
+    ctx.cov["distinct_nontrivial"] = nscen
     ctx.cov["rule"] = ("every frame of the TLC-enumerated space (length x key x pts/dts x pid x incoming cc) packed by "
                        "lal, followed by two more frames on the same PID; big lengths around 184-byte multiples; "
                        "all 16 codec pairs for PAT/PMT; each scenario distinct by construction")
-    ctx.sample(scen[0])
-    ctx.sample(scen[-1])
-    rej = E.validate(ctx, "Trace_TsPack", "Trace_TsPack.cfg", rows)
+    ctx.sample(first)
+    ctx.sample(last)
+    rej = E.validate_file(ctx, "Trace_TsPack", "Trace_TsPack.cfg", tp)
     for r in rej:
         ev = r["event"]
         if ev["ev"] == "Frame":
@@ -70,6 +82,13 @@ def run(ctx):
         E.report(ctx, sig, "trace rejected at %s (scenario %s line %d)" % (ev["ev"], r["sc"], r["line"]),
                  {"trace": r["trace"]})
     ctx.assumptions += ["independent TS/PES/PSI reader harness/proj/ts.go", "PTS/DTS carry lal's constant 63000-tick delay (spec constant Delay)"]
+
+
+def run(ctx):
+    # the first part holds millions of records in the thorough tier: it runs in a function of its own so that they are
+    # released before the second part starts
+    pack_part(ctx)
+    gc.collect()
     # "continuity counters advance by one per packet per PID across frames": the counters live in Rtmp2MpegtsRemuxer
     # (audioCc / videoCc) between two Pack calls.  The RemuxOut scenarios (spec/RemuxOut.tla, acceptor clause FrameWF.ccOk,
     # every codec combination) are replayed through the Group and judged at HTTP-TS consumers and in HLS segments.
